@@ -193,7 +193,7 @@ EXPORT errno_t _wcstombs_s_chk(size_t *restrict retvalp, char *restrict dest,
 
     /* l is the strlen, excluding NULL */
     /* libc stores up to len bytes: never more than dmax */
-    if (dest && len > dmax) {
+    if (dest && len >= dmax) {
         /* the source must then fit completely */
         const wchar_t *p = src;
         mbstate_t st;
